@@ -105,6 +105,37 @@ def _pure_local(atom):
     return not any(isinstance(x, (ast.Attribute, ast.Subscript, ast.Call)) for x in ast.walk(atom))
 
 
+def path_expand(fl, path, e, pos, depth=8):
+    """def-use expansion of e evaluated at path[pos], *along this path*: a name with several reaching definitions takes the one the
+    path actually passed last (the path-insensitive expansion would give a phi of all of them)"""
+    import copy
+    node = path[pos]
+
+    class T(ast.NodeTransformer):
+        def visit_Lambda(self, n):
+            return n
+
+        def visit_Name(self, n):
+            if not isinstance(n.ctx, ast.Load) or depth <= 0:
+                return n
+            defs = fl.defs_at(node, n.id)
+            if not defs:
+                return n
+            on = [(i, d) for i, d in enumerate(path[:pos]) if d in defs]
+            if not on:
+                return fl.expand(n, node) if len(defs) == 1 else n
+            i, d = on[-1]
+            how = fl.def_how(d, n.id)
+            if how[0] == "assign":
+                return path_expand(fl, path, how[1], i, depth - 1)
+            if how[0] in ("param", "other"):
+                return n
+            if len(defs) == 1:
+                return fl.expand(n, node)
+            return n
+    return T().visit(copy.deepcopy(e))
+
+
 def table(fl, limit=4000, keep_infeasible=False):
     """[Row] for every feasible acyclic path of fl's function"""
     cfg = fl.cfg
@@ -133,11 +164,12 @@ def table(fl, limit=4000, keep_infeasible=False):
                 for e in cfg.node_exprs(n):
                     for c in [e] + list(walk_local(e)):
                         if isinstance(c, ast.Call):
-                            r.effects.append(("call", canon(fl.expand(c, n)), c, n))
+                            r.effects.append(("call", canon(path_expand(fl, path, c, pos)), c, n))
                 if n.kind == "stmt":
                     for kind, p, tgt in store_targets(n.stmt):
                         val = getattr(n.stmt, "value", None)
-                        r.effects.append(("store", canon(fl.expand(tgt, n)) + (" = " + canon(fl.expand(val, n)) if val is not None and kind != "del" else ""), n.stmt, n))
+                        r.effects.append(("store", canon(path_expand(fl, path, tgt, pos)) + (" = " + canon(path_expand(fl, path, val, pos)) if val is not None and kind != "del" else ""),
+                                          n.stmt, n))
                     for p, m, c in mutating_calls(n.stmt):
                         r.effects.append(("mut", f"{p}.{m}", c, n))
             if n.kind == "return":
@@ -208,3 +240,52 @@ def contradicted_membership(ck, rid, f, fl, rows, sink="contradicted-membership"
     if not bad and n_checked:
         ck.holds(rid, f, "lookups guarded by membership tests", f"{n_checked} negative membership fact(s), none followed by the lookup")
     return not bad
+
+
+# ----------------------------------------------------------------------------
+# propositional consequences of a path condition
+# ----------------------------------------------------------------------------
+
+def _atoms_of(e, out):
+    if isinstance(e, ast.UnaryOp) and isinstance(e.op, ast.Not):
+        _atoms_of(e.operand, out)
+    elif isinstance(e, ast.BoolOp):
+        for v in e.values:
+            _atoms_of(v, out)
+    else:
+        k, t = atom_key(e, True)
+        out.setdefault(k, e)
+
+
+def _eval(e, env):
+    if isinstance(e, ast.UnaryOp) and isinstance(e.op, ast.Not):
+        return not _eval(e.operand, env)
+    if isinstance(e, ast.BoolOp):
+        vals = [_eval(v, env) for v in e.values]
+        return all(vals) if isinstance(e.op, ast.And) else any(vals)
+    k, t = atom_key(e, True)
+    return env[k] if t else (not env[k])
+
+
+def implied(fl, row, pred, limit=10):
+    """truth value that every assignment of the branch atoms consistent with the path's tests gives to the atom selected by
+    pred(key, ast): True / False, or None when the path condition does not determine it (or the atom does not occur).  The path
+    condition is the conjunction of (test == edge taken); compound tests are evaluated propositionally over their atoms
+    (finite truth table, at most 2**limit rows), so `not (a and b)` together with `a` yields `not b`."""
+    import itertools
+    tests = [(fl.expand(t.expr, t), lab) for t, lab in row.tests]
+    atoms = {}
+    for e, _ in tests:
+        _atoms_of(e, atoms)
+    keys = sorted(atoms)
+    target = [k for k in keys if pred(k, atoms[k])]
+    if not target or len(keys) > limit:
+        return None
+    vals = set()
+    for bits in itertools.product((False, True), repeat=len(keys)):
+        env = dict(zip(keys, bits))
+        if all(bool(_eval(e, env)) == bool(lab) for e, lab in tests):
+            vals.add(env[target[0]])
+    if len(vals) == 1:
+        return vals.pop()
+    return None
